@@ -138,11 +138,25 @@ class Repo:
         self.ops.append("merge %s -> c%d" % (other, cid))
         return True
 
-    def tag(self, name, cid=None, annotated=False):
+    def tag(self, name, cid=None, annotated=False, nested=False):
         if any(t["name"] == name for t in self.tags):
             return False
         cid = self.head_cid() if cid is None else cid
         tt = None
+        if nested:
+            # an annotated tag of an annotated tag of the commit (what `git tag -a outer inner` makes): both peel to the commit
+            inner = "nest-%d" % len(self.tags)
+            tt = self.rand_time()
+            self.git("tag", "-a", "-m", "inner", inner, self.commits[cid]["sha"], env={"GIT_COMMITTER_DATE": "@%d +0000" % tt}, check=False)
+            if self.git("tag", "-l", inner) != inner:
+                return False
+            self.tags.append(dict(name=inner, cid=cid, annotated=True, ttime=tt))
+            r = self.git("tag", "-a", "-m", "tag " + name, name, inner, env={"GIT_COMMITTER_DATE": "@%d +0000" % tt}, check=False)
+            if self.git("tag", "-l", name) != name:
+                return False
+            self.tags.append(dict(name=name, cid=cid, annotated=True, ttime=tt, nested=True))
+            self.ops.append("tag(nested annotated, through %s) %s at c%d" % (inner, name, cid))
+            return True
         if annotated:
             tt = self.rand_time()
             r = self.git("tag", "-a", "-m", "tag " + name, name, self.commits[cid]["sha"], env={"GIT_COMMITTER_DATE": "@%d +0000" % tt}, check=False)
@@ -323,7 +337,7 @@ def build_random(path, rng, nops):
                 name = rand_tag(rng)
                 if rng.random() < 0.06:
                     name = rng.choice(sorted(r.branches))      # a (non-version) tag that shares its name with a branch
-                if not r.tag(name, cid, annotated=rng.random() < 0.4):
+                if not r.tag(name, cid, annotated=rng.random() < 0.4, nested=rng.random() < 0.05):
                     continue
             elif k < 0.97:
                 r.detach(rng.choice(r.commits)["id"])
